@@ -116,7 +116,7 @@ fn scenario(ctx: &std::sync::Arc<Ctx>) {
     if rng.gen_range(0u32..40) == 0 {
         return churn_scenario(ctx);
     }
-    let nthreads = rng.gen_range(2usize..5);
+    let nthreads = rng.gen_range(2usize..6);
     let npool = rng.gen_range(1usize..4);
     // similar sources exercise the same code paths at the same time: after the first pick the
     // others are the same source, a catalogue neighbour (a prefix / variant of it), or random
@@ -279,8 +279,9 @@ fn main() {
     let t0 = std::time::Instant::now();
     let c2 = ctx.clone();
     let result = std::panic::catch_unwind(std::panic::AssertUnwindSafe(move || {
-        if sched == "pct" {
-            let s = PctScheduler::new_from_seed(seed, 3, iterations);
+        if let Some(depth) = sched.strip_prefix("pct") {
+            let depth: usize = depth.trim_start_matches(':').parse().unwrap_or(3);
+            let s = PctScheduler::new_from_seed(seed, depth, iterations);
             Runner::new(s, cfg).run(move || scenario(&c2));
         } else {
             let s = RandomScheduler::new_from_seed(seed, iterations);
